@@ -209,4 +209,60 @@ func init() {
 		New: "	return rv.Len()", Expect: "R5"})
 	addMutant(Mutant{Name: "revert-groupby-array-copy", Prop: "C19", File: "helpers/iterators/group_by.go",
 		Old: "		if u.Kind() == reflect.Array && !u.CanAddr() {\n			// an array held by value cannot be sliced; slice a copy\n			a := reflect.New(u.Type()).Elem()\n			a.Set(u)\n			u = a\n		}\n\n", New: "", Expect: "R5"})
+	// ---- C04 / C11 (reverts of the repaired panics) ----
+	addMutant(Mutant{Name: "revert-negative-index-read", Prop: "C04", File: "compiler.go",
+		Old: "			if i < 0 || rv.Len()-1 < i {\n				err = fmt.Errorf(\"array index out of bounds, got index %d, while array size is %d\", index, rv.Len())",
+		New: "			if rv.Len()-1 < i {\n				err = fmt.Errorf(\"array index out of bounds, got index %d, while array size is %d\", index, rv.Len())", Expect: "Index"})
+	addMutant(Mutant{Name: "revert-negative-index-write", Prop: "C11", File: "compiler.go",
+		Old: "			if i < 0 || rv.Len()-1 < i {\n				err = fmt.Errorf(\"array index out of bounds, got index %d, while array size is %v\", i, rv.Len())",
+		New: "			if rv.Len()-1 < i {\n				err = fmt.Errorf(\"array index out of bounds, got index %d, while array size is %v\", i, rv.Len())", Expect: "Index"})
+	addMutant(Mutant{Name: "revert-setmapindex-guards", Prop: "C04", File: "compiler.go",
+		Old: "		case !kv.IsValid() || !kv.Type().AssignableTo(rv.Type().Key()) || !kv.Type().Comparable():\n			err = fmt.Errorf(\"cannot use %v (%T) as %s value in map index\", index, index, rv.Type().Key())\n", New: "", Expect: "SetMapIndex"})
+	addMutant(Mutant{Name: "revert-setmapindex-nil-map", Prop: "C04", File: "compiler.go",
+		Old: "		case rv.IsNil():\n			err = fmt.Errorf(\"cannot assign to an entry of a nil map (%T)\", left)\n", New: "", Expect: "SetMapIndex"})
+	addMutant(Mutant{Name: "revert-slice-assign-nil-value", Prop: "C04", File: "compiler.go",
+		Old: "				if !vv.IsValid() {\n					// nil: the element type's zero value\n					vv = reflect.Zero(elemType)\n				}\n", New: "", Expect: "Type on"})
+	addMutant(Mutant{Name: "revert-slice-assign-canset", Prop: "C04", File: "compiler.go",
+		Old: "				} else if !rv.Index(i).CanSet() {\n					err = fmt.Errorf(\"cannot assign to an element of %T: not addressable\", left)\n				}", New: "				}", Expect: "Set on"})
+	addMutant(Mutant{Name: "revert-map-key-nil", Prop: "C11", File: "compiler.go",
+		Old: "		if !kv.IsValid() {\n			return nil, fmt.Errorf(\"cannot use nil as %s value in map index\", rv.Type().Key())\n		}\n", New: "", Expect: "R3"})
+	addMutant(Mutant{Name: "revert-map-key-comparable", Prop: "C04", File: "compiler.go",
+		Old: "		if !kv.Type().Comparable() {\n			return nil, fmt.Errorf(\"cannot use %v (%T) as map index: not comparable\", index, index)\n		}\n", New: "", Expect: "MapIndex"})
+	addMutant(Mutant{Name: "revert-nil-receiver-method", Prop: "C11", File: "compiler.go",
+		Old: "		if !rc.IsValid() {\n			return nil, fmt.Errorf(\"'%s' is nil, cannot call its method '%s' (%s.%s)\", node.Callee.String(), mname, node.Callee.String(), mname)\n		}\n", New: "", Expect: "R3"})
+	addMutant(Mutant{Name: "revert-unknown-method-returns-receiver", Prop: "C11", File: "compiler.go",
+		Old: "		if !rv.IsValid() {\n			return nil, fmt.Errorf(\"'%s' does not have a method named '%s' (%s.%s)\", node.Callee.String(), mname, node.Callee.String(), mname)\n		}\n	} else {",
+		New: "		if !rv.IsValid() {\n			return rc.Interface(), nil\n		}\n	} else {", Expect: "R2"})
+	addMutant(Mutant{Name: "revert-array-append", Prop: "C04", File: "compiler.go",
+		Old: "		if lv.Kind() != reflect.Slice {\n			return nil, fmt.Errorf(\"cannot append to %T: not a slice\", l)\n		}\n", New: "", Expect: "Append"})
+	addMutant(Mutant{Name: "revert-nil-time-pointer", Prop: "C04", File: "compiler.go",
+		Old: "		if t != nil {\n			c.write(bb, *t)\n		}", New: "		c.write(bb, *t)", Expect: "dereference"})
+	addMutant(Mutant{Name: "revert-userfn-arity", Prop: "C04", File: "compiler.go",
+		Old: "	if len(args) < len(node.Parameters) {\n		return nil, fmt.Errorf(\"too few arguments in call to function (%d for %d)\", len(args), len(node.Parameters))\n	}\n", New: "", Expect: "index"})
+	addMutant(Mutant{Name: "revert-len-kind", Prop: "C04", File: "helpers/meta/len.go",
+		Old: "	switch rv.Kind() {\n	case reflect.Array, reflect.Chan, reflect.Map, reflect.Slice, reflect.String:\n		return rv.Len()\n	}\n	// nothing else has a length (this includes a nil pointer)\n	return 0",
+		New: "	return rv.Len()", Expect: "Len"})
+	addMutant(Mutant{Name: "revert-groupby-unaddressable", Prop: "C04", File: "iterators.go",
+		Old: "		if u.Kind() == reflect.Array && !u.CanAddr() {\n			// an array held by value cannot be sliced; slice a copy\n			a := reflect.New(u.Type()).Elem()\n			a.Set(u)\n			u = a\n		}\n\n", New: "", Expect: ""})
+	addMutant(Mutant{Name: "revert-pathfor-nil-pointer", Prop: "C04", File: "helpers/paths/path_for.go",
+		Old: "	if !rv.IsValid() {\n		return \"\", errors.New(\"can not calculate path to a nil pointer\")\n	}\n", New: "", Expect: "Type on"})
+	addMutant(Mutant{Name: "revert-truncate-assertions", Prop: "C04", File: "helpers/text/truncate.go",
+		Old: "	size := 50\n	if v, ok := opts[\"size\"].(int); ok {\n		size = v\n	}", New: "	size := opts[\"size\"].(int)", Expect: "assertion"})
+	addMutant(Mutant{Name: "revert-foreign-context-assertion", Prop: "C04", File: "compiler.go",
+		Old: "	octx, ok := c.ctx.(*Context)\n	if !ok {\n		return nil, fmt.Errorf(\"expected *Context, got %T\", c.ctx)\n	}\n	defer func() {\n		c.ctx = octx\n	}()\n\n	c.ctx = octx.New()\n	// must copy all data from original (it includes application defined helpers)\n	for k, v := range octx.data {\n		c.ctx.Set(k, v)\n	}\n\n	iter, err",
+		New: "	octx := c.ctx.(*Context)\n	defer func() {\n		c.ctx = octx\n	}()\n\n	c.ctx = octx.New()\n	// must copy all data from original (it includes application defined helpers)\n	for k, v := range octx.data {\n		c.ctx.Set(k, v)\n	}\n\n	iter, err", Expect: "assertion"})
+	addMutant(Mutant{Name: "revert-nil-func-call", Prop: "C04", File: "compiler.go",
+		Old: "	if rv.IsNil() {\n		return nil, fmt.Errorf(\"%+v is a nil function\", node.String())\n	}\n", New: "", Expect: "Call"})
+	addMutant(Mutant{Name: "identifier-drops-struct-test", Prop: "C11", File: "compiler.go",
+		Old: "		if rv.Kind() != reflect.Struct {\n			return nil, fmt.Errorf(\"'%s' does not have a field or method named '%s' (%s)\", node.Callee.String(), node.Value, node)\n		}\n", New: "", Expect: "FieldByName"})
+	addMutant(Mutant{Name: "index-minus-one", Prop: "C11", File: "compiler.go",
+		Old: "					returnValue = rv.Index(i).Interface()", New: "					returnValue = rv.Index(i - 1).Interface()", Expect: "R"})
+	addMutant(Mutant{Name: "member-named-by-callee", Prop: "C11", File: "compiler.go",
+		Old: "		f := rv.FieldByName(node.Value)", New: "		f := rv.FieldByName(node.Callee.Value)", Expect: "R1"})
+	addMutant(Mutant{Name: "equiv-bounds-test-reordered", Prop: "C04", File: "compiler.go", Equivalent: true,
+		Old: "			if i < 0 || rv.Len()-1 < i {\n				err = fmt.Errorf(\"array index out of bounds, got index %d, while array size is %d\", index, rv.Len())",
+		New: "			if i >= rv.Len() || 0 > i {\n				err = fmt.Errorf(\"array index out of bounds, got index %d, while array size is %d\", index, rv.Len())"})
+	addMutant(Mutant{Name: "equiv-kind-if-instead-of-switch", Prop: "C04", File: "helpers/meta/len.go", Equivalent: true,
+		Old: "	switch rv.Kind() {\n	case reflect.Array, reflect.Chan, reflect.Map, reflect.Slice, reflect.String:\n		return rv.Len()\n	}",
+		New: "	if k := rv.Kind(); k == reflect.Array || k == reflect.Chan || k == reflect.Map || k == reflect.Slice || k == reflect.String {\n		return rv.Len()\n	}"})
 }
